@@ -239,24 +239,41 @@ Section Tables.
       + replace ((0 <=? x) && (x <? q)) with true by (symmetry; apply andb_true_iff; split; [apply Z.leb_le|apply Z.ltb_lt]; lia).
         rewrite Z.mod_small by lia. reflexivity.
   Qed.
+  Lemma gf_idx_small i : 0 <= i < q -> gf_idx q i = Some i.
+  Proof. intros; unfold gf_idx. replace ((0 <=? i) && (i <? q)) with true; auto. symmetry; apply andb_true_iff; split; [apply Z.leb_le|apply Z.ltb_lt]; lia. Qed.
   Theorem gf_init_unsigned_correct b T x :
     sg T = false -> 32 <= bits T -> 0 <= x -> gf_init b q (SI T) x = Some (x mod q).
   Proof.
     intros HsT Hb Hx. cbn [gf_init]. rewrite HsT. cbn [orb].
-    assert (forall A (u v : A), (if bits T <? 64 then if bits T <? 32 then u else v else v) = v) as Hsel.
-    { intros. destruct (bits T <? 64); auto. destruct (Z.ltb_spec (bits T) 32); auto; lia. }
-    rewrite Hsel. unfold gf_idx. destruct (Z.leb_spec q x).
-    - pose proof (Z.mod_pos_bound x q ltac:(lia)).
-      replace ((0 <=? x mod q) && (x mod q <? q)) with true by (symmetry; apply andb_true_iff; split; [apply Z.leb_le|apply Z.ltb_lt]; lia).
-      reflexivity.
-    - replace ((0 <=? x) && (x <? q)) with true by (symmetry; apply andb_true_iff; split; [apply Z.leb_le|apply Z.ltb_lt]; lia).
-      rewrite Z.mod_small by lia. reflexivity.
+    assert (bits T <? 32 = false) as E32 by (apply Z.ltb_ge; lia). rewrite E32. cbn [negb]. rewrite Bool.andb_true_r.
+    assert (gf_idx q (if q <=? x then x mod q else x) = Some (x mod q)) as HA.
+    { destruct (Z.leb_spec q x).
+      - apply gf_idx_small. apply Z.mod_pos_bound; lia.
+      - rewrite Z.mod_small by lia. apply gf_idx_small; lia. }
+    destruct (bits T <? 64); exact HA.
+  Qed.
+  (* init(int64_t) (repaired body) and init(int32_t), which forwards to it: EVERY value of the source type, incl. the most negative *)
+  Theorem gf_init_signed_correct b T x :
+    sg T = true -> 0 < bits T <= 64 -> q <= 2 ^ 62 -> in_range T x -> gf_init b q (SI T) x = Some (x mod q).
+  Proof.
+    intros HsT Hb Hq62 Hx. cbn [gf_init]. rewrite HsT. cbn [orb negb]. rewrite Bool.andb_false_r.
+    pose proof (rem_bound x q ltac:(lia)) as [Hrb [Hrp Hrn]]. pose proof (rem_cong x q ltac:(lia)) as Hc.
+    assert (2 ^ 62 = 4611686018427387904) as E62 by reflexivity. rewrite E62 in Hq62.
+    assert (forall z, - 4611686018427387904 <= z <= 4611686018427387904 -> cast i64 z = z) as Hc64.
+    { intros; apply cast_id; unfold wf, tmin, tmax; cbn; try change (2 ^ (64 - 1)) with 9223372036854775808; lia. }
+    destruct (Z.ltb_spec x 0).
+    - rewrite (Hc64 (Z.rem x q)) by lia. rewrite Hc64 by lia.
+      destruct (Z.eqb_spec (- Z.rem x q) 0) as [E|E].
+      + f_equal. rewrite <- Hc. replace (Z.rem x q) with 0 by lia. symmetry; apply Z.mod_0_l; lia.
+      + rewrite (wrapu_id 64 (- Z.rem x q)) by (try change (2 ^ 64) with 18446744073709551616; lia).
+        rewrite wrapu_id by (try change (2 ^ 64) with 18446744073709551616; lia).
+        rewrite gf_idx_small by lia. f_equal. rewrite <- Hc.
+        rewrite <- (Z.mod_small (q - - Z.rem x q) q) by lia. apply (cong_intro q _ _ 1); lia.
+    - destruct (Z.leb_spec q x).
+      + rewrite Z.rem_mod_nonneg by lia. apply gf_idx_small. apply Z.mod_pos_bound; lia.
+      + rewrite Z.mod_small by lia. apply gf_idx_small; lia.
   Qed.
 End Tables.
-(* the most negative int64_t: the index leaves the table *)
-Theorem gf_init_type_min_refuted : exists q x, 2 <= q /\ in_range i64 x /\ gf_init 64 q (SI i64) x = None.
-Proof. exists 3, (- 2 ^ 63). split; [lia|]. split; [unfold in_range; cbn; lia | reflexivity]. Qed.
-
 (* Modular<Log16>::init(int64_t) (repaired body): every int64_t except that the table index must fit int16_t: p < 2^15 *)
 Theorem lg_init_i64_correct p a : 2 <= p < 2 ^ 15 -> in_range i64 a -> lg_init_i64 p a = Some (a mod p).
 Proof.
